@@ -264,6 +264,8 @@ func oracleFiles(prop string) []string {
 		return []string{"displayrtcm3.go.txt", "rtcmfilter.go.txt"}
 	case "C10":
 		return []string{"rtcmfilter.go.txt"}
+	case "C19":
+		return []string{"reportfeed.go.txt"}
 	}
 	return []string{oracleFile(prop)}
 }
